@@ -3,6 +3,9 @@ package main
 import (
 	"encoding/json"
 	"flag"
+	"go/ast"
+	"go/token"
+	"go/types"
 	"fmt"
 	"os"
 	"runtime/debug"
@@ -24,6 +27,8 @@ type Ctx struct {
 
 	c03roots       map[string]*RootInfo
 	extraWorldUnit *Unit
+	// worldInspect, when set, is handed the type-checked unit of a shape world (typeCheckWorld) and returns further findings
+	worldInspect func(fset *token.FileSet, f *ast.File, info *types.Info) []typeFinding
 }
 
 func (c *Ctx) Thorough() bool { return c.Tier == "thorough" }
